@@ -1862,3 +1862,52 @@ def setitem(interp, obj, idx, v, node=None):   # noqa: F811
         obj.columns.append((idx, v))
         return
     return _si3(interp, obj, idx, v, node)
+
+
+# ---------------------------------------------------------------------------------------------
+# str() of symbolic objects with a __str__ under the repository; structural str.strip
+# ---------------------------------------------------------------------------------------------
+_ms0 = _MODELS[str]
+
+
+def _model_str2(interp, args, kwargs, node):
+    from .interp import BoundMethod, _MISSING
+    from .extract import from_real
+    x = args[0] if args else ''
+    if isinstance(x, SObj):
+        m = interp._static_attr(x.cls, '__str__')
+        if m is not _MISSING and from_real(m) is not None:
+            return interp.call(BoundMethod(x, from_real(m)), [], {}, node)
+        raise OutOfSubset(f'str() of {x!r}')
+    return _ms0(interp, args, kwargs, node)
+
+
+_MODELS[str] = _model_str2
+
+_sm0 = str_method
+
+
+def str_method(interp, s, name, args, kwargs, node=None):   # noqa: F811
+    if name == 'strip' and args and isinstance(args[0], str) and args[0]:
+        chars = args[0]
+        interp.ctx.use(A('str.strip', 'str.strip(chars) removes leading and trailing characters that are in chars'))
+        parts = [list(p) for p in s.parts]
+        for side in (0, -1):
+            while parts:
+                p = parts[side]
+                if p[0] == 'c':
+                    t = p[1].lstrip(chars) if side == 0 else p[1].rstrip(chars)
+                    if t:
+                        p[1] = t
+                        break
+                    parts.pop(side)
+                    continue
+                if p[0] == 's':
+                    f = z3.PrefixOf if side == 0 else z3.SuffixOf
+                    edge = z3.Or(*[f(z3.StringVal(c), p[1]) for c in chars], z3.Length(p[1]) == 0)
+                    # the symbolic part must not begin/end with a stripped character (else the result is not structural): a safety obligation
+                    interp.ctx.prove(z3.Not(edge), 'strip_stops_at_the_symbolic_fragment', 'safety')
+                    break
+                break
+        return simplify_value(SStr([tuple(p) for p in parts]))
+    return _sm0(interp, s, name, args, kwargs, node)
